@@ -61,7 +61,7 @@ def worker(job):
                 problems.append(("equivariance", "layer(g.x) != g.layer(x) for output block %s, g=%s: %s" % (tname(t), g, first_diff(yg[t], want) if t in yg and yg[t].shape == want.shape else "shape/type mismatch"), site_of(yg[t]) if t in yg else None))
                 cfg.setdefault("g", g)
                 break
-    if shift is not None and all(flags) and ld is None:
+    if shift is not None and all(flags) and ld is None and padding in ("TORUS", None):  # toroidally WRAPPED images only (the statement)
         cfg["shift"] = list(shift)
         sx = {t: shift_block(b, D, shift) for t, b in xb.items()}
         ys = attempt(lambda: layer(make_multi(it, [t for t, _ in in_sig], sx, D, flags)))
@@ -122,6 +122,36 @@ def run(ctx):
                 continue  # a layer with anisotropic dilations is not symmetric by construction (its options do not travel with g)
             flags = flags if all(flags) else (False,) * D  # cubic grid: flags do not travel here (C01 / C02 cover that)
             jobs.append((ctx.repo, D, sig3[0], sig3[1], "auto", padding, rd, ld, flags, (), (1,) + (0,) * (D - 2) + (2,)))
+    # pseudo-random (deterministic) layers: signature x bias setting x isotropic option set nobody wrote down
+    from .convspec import _pick
+
+    pool = [(0, 0), (0, 1), (1, 0), (1, 1), (2, 0), (2, 1)]
+    n_s = 0
+    i = 0
+    while n_s < (120 if th else 14) and i < 5000:
+        i += 1
+        D = 2 if _pick((0, 1, 2, 3), "C06", i, "D") else 3
+        ins = sorted({_pick(pool[: 6 if D == 2 else 4], "C06", i, "in", j) for j in range(_pick((1, 2, 2, 3), "C06", i, "nin"))})
+        outs = sorted({_pick(pool[: 6 if D == 2 else 4], "C06", i, "out", j) for j in range(_pick((1, 2, 2, 3), "C06", i, "nout"))}, reverse=bool(i % 2))
+        if max(a[0] for a in ins) + max(b[0] for b in outs) > (3 if D == 2 else 2) or (D == 3 and len(ins) * len(outs) > 2):
+            continue
+        isig = tuple((t, _pick((1, 2), "C06", i, "ci", t)) for t in ins)
+        osig = tuple((t, _pick((1, 2), "C06", i, "co", t)) for t in outs)
+        bias = _pick(("auto", "mean", "scalar", True, False), "C06", i, "bias")
+        padding = _pick(("TORUS", "SAME", "VALID", None, 0, 1, 2, "sym"), "C06", i, "pad")
+        if padding == "sym":
+            padding = [[_pick((1, 2, 3), "C06", i, "sp")] * 2] * D
+        rd = _pick((1, 1, 2, 3), "C06", i, "rd")
+        ld = _pick((None, None, 2, 3), "C06", i, "ld")
+        torus = _pick((True, False), "C06", i, "fl")
+        if ld is not None and ((padding in ("TORUS", None)) and torus):
+            continue
+        if padding == "VALID" and ld is None and 3 - ((3 - 1) * rd + 1) < 0:
+            continue
+        if isinstance(padding, int) and ld is None and 3 + 2 * padding - ((3 - 1) * rd + 1) < 0:
+            continue
+        n_s += 1
+        jobs.append((ctx.repo, D, isig, osig, bias, padding, rd, None if ld is None else [ld] * D, (torus,) * D, (), (1,) + (0,) * (D - 2) + (2,)))
     by = {}
     for job, r in ctx.pairs(worker, jobs):
         cfg = r["cfg"]
